@@ -482,7 +482,17 @@ class Stream(APIRegisterMixin):
             A reference counter used to check when data is done
         """
         ts_async = getattr(thread_state, 'asynchronous', False)
-        if self.loop is None or asynchronous or self.asynchronous or ts_async:
+        on_own_loop = False
+        if not ts_async and self.loop is not None:
+            # Called on the pipeline's own event-loop thread (a consumer that
+            # forwards with a nested emit): blocking here would block the very
+            # loop we wait for.  The thread flag alone cannot tell, because an
+            # overlapping blocking emit that finished earlier has reset it.
+            try:
+                on_own_loop = asyncio.get_running_loop() is getattr(self.loop, 'asyncio_loop', None)
+            except RuntimeError:
+                pass
+        if self.loop is None or asynchronous or self.asynchronous or ts_async or on_own_loop:
             if not ts_async:
                 thread_state.asynchronous = True
             try:
